@@ -12,9 +12,11 @@
       an empty block gets the `:` no-op);
     * `script_balanced`: nesting depth returns to 0 (openers and closers match up);
     * `bodies_start_with_a_command`: a body never starts with a closer.
-  The batch part and `bash -n` itself are decided by the structural oracles of the check.
+  Batch: balanced parentheses and empty construct stacks at the end for every program (theorems below);
+  labels, helper inclusion, jump targets and `bash -n` itself are decided by the structural oracles of the check.
 -/
 import TshVerif.Props.C01
+import TshVerif.Props.C05
 namespace Tsh.C16
 open Tsh Tsh.Tr Tsh.Bash
 
@@ -36,5 +38,16 @@ theorem bodies_start_with_a_command {lo hi : Nat} {l : Line} {rest : List Line} 
 /-- an empty block is emitted as the no-op, never as nothing -/
 theorem empty_block_is_nop (s : St) : evalBlock conv [] s = .ok ((), { s with code := .nop :: s.code }) := by
   unfold evalBlock; rfl
+
+/-- **Batch: balanced parentheses** in every emitted script, for every program (C05.parentheses_balanced):
+    the number of lines that open a block equals the number of lines that close one, helper routines included. -/
+theorem batch_parentheses_balanced (p : Program) (ls : List Batch.BLine) (h : Batch.compile p = .ok ls) : Batch.sumD ls = 0 :=
+  C05.parentheses_balanced p ls h
+
+/-- **Batch: no construct is left open**: after the whole program the if-, loop- and function stacks are empty,
+    so every `goto` emitted against a pending label has met the line that defines that label. -/
+theorem batch_no_construct_left_open (p : Program) (u : Unit) (s : Batch.St) (h : evalProgram Batch.conv p {} = .ok (u, s)) :
+    s.ifs = [] ∧ s.fors = [] ∧ s.endLabels = [] ∧ s.funcs = [] :=
+  C05.construct_stacks_empty_at_end p u s h
 
 end Tsh.C16
